@@ -370,7 +370,71 @@ def _c12():
     }
 
 
-_CASES = {"C12": _c12, "C05": _c05, "C07": _c07, "C08": _c08, "C09": _c09, "C10": _c10, "C11": _c11, "C13": _c13, "C14": _c14}
+_gen_cache = {}
+
+
+def _generated_classes():
+    """A small tree generated once per process by the real generator: a chunked struct nested in a struct that has
+    non-chunked and chunked parts (the classes of C15's statement)."""
+    if "cls" not in _gen_cache:
+        from . import genpipe
+        from .specs import brk, chunked, field, struct
+
+        files = {"net": [
+            struct("ThInner", [chunked([field("name", "string"), brk(), field("t", "char")])]),
+            struct("ThOuter", [field("a", "char"), chunked([field("s", "string"), brk(), field("inner", "ThInner")]), field("tail", "string")]),
+        ]}
+        work = loader.scratch_dir("threads-gen")
+        genpipe.write_tree(files, work + "/xml", n_families=1)
+        err = genpipe.run_generator(work + "/xml", work + "/out")
+        if err is not None:
+            raise loader.HarnessError(f"thread cases: the generator rejected the tree: {err}")
+        loader.point_generated_at(work + "/out")
+        inner = getattr(loader.gen("eolib.protocol._generated.net.th_inner"), "ThInner")
+        outer = getattr(loader.gen("eolib.protocol._generated.net.th_outer"), "ThOuter")
+        _gen_cache["cls"] = (inner, outer)
+    return _gen_cache["cls"]
+
+
+def _c15():
+    def ser(outer, inner, mode, s):
+        def run():
+            W = loader.lib("eolib.data.eo_writer").EoWriter
+            w = W()
+            w.string_sanitization_mode = mode
+            outer.serialize(w, outer(a=1, s=s, inner=inner(name=s, t=2), tail=s))
+            return (bytes(w.to_bytearray()), bool(w.string_sanitization_mode))
+
+        return run
+
+    def de(outer, mode, data):
+        def run():
+            R = loader.lib("eolib.data.eo_reader").EoReader
+            r = R(data)
+            r.chunked_reading_mode = mode
+            o = outer.deserialize(r)
+            return (o.a, o.s, o.inner.name, o.inner.t, o.tail, o.byte_size, bool(r.chunked_reading_mode))
+
+        return run
+
+    def mk(make_bodies):
+        def setup():
+            inner, outer = _generated_classes()
+            bodies = make_bodies(inner, outer)
+            alone = [b() for b in bodies]  # what each gets alone
+            return bodies, threads.judge_values(alone)
+
+        return setup
+
+    data = b"\x02a\xffy\xffb\xff\x03tail"
+    return {
+        "generated serialize (entry sanitising) || serialize (entry not sanitising)": mk(lambda i, o: [ser(o, i, True, "aÿ"), ser(o, i, False, "ÿb")]),
+        "generated deserialize (entry chunked) || deserialize (entry not chunked)": mk(lambda i, o: [de(o, True, data), de(o, False, data)]),
+        "generated serialize || deserialize": mk(lambda i, o: [ser(o, i, False, "ÿ"), de(o, False, data)]),
+    }
+
+
+_CASES = {"C15": _c15, "C12": _c12, "C05": _c05, "C07": _c07, "C08": _c08, "C09": _c09, "C10": _c10, "C11": _c11, "C13": _c13, "C14": _c14}
 
 
 def cases(pid):
